@@ -104,11 +104,22 @@ CLAIMED.update({
         "design_ref": "DESIGN.md 4 U-mm",
     },
 })
+CLAIMED.update({
+    "C05": {
+        "text": "Proof, for all operand pairs of integer terminals, that each multi-terminal kernel (plus, minus, mult, div, mod, max, min) "
+                "computes enc(dec(a) op dec(b)), raises DIVIDE_BY_ZERO exactly for a zero divisor and VALUE_OVERFLOW exactly when the "
+                "result leaves the terminal range, and that every shortcut predicate (simplifiesToFirst/SecondArg, stopOnEqualArgs, "
+                "commutes) is sound with respect to its kernel - the early exits the ops_* tests cannot span (this exposed the "
+                "division shortcuts returning values at zero divisors, fixed). Loop-free, full symbolic domain. Partial: the "
+                "recursion that applies the kernels, comparisons, EV+/EV*/real kernels, range scans and user maps are not covered.",
+        "note": COMMON_NOTE + " Three jobs with 64-bit multiply/divide equivalences run only in the thorough tier.",
+        "design_ref": "DESIGN.md A.1, 4 U-arith",
+    },
+})
 NA_HEAP = ("no function contract within CBMC's reach can express it: the content is a recursion over the decision-diagram heap "
            "(needs an inductive 'node p denotes f' predicate and induction), in template/virtual C++ the front end rejects")
 NOT_APPLICABLE = {
     "C04": "set algebra: " + NA_HEAP,
-    "C05": "work in progress in this session",
     "C08": "reachability fixed points: " + NA_HEAP,
     "C09": "image / vector-matrix products: " + NA_HEAP,
     "C10": "cross-forest copy: " + NA_HEAP + "; the scalar conversions are covered under C19",
